@@ -4,7 +4,7 @@ from tools import common as C, wire, oracle as O
 LEAN_MODULES = ["SCP.C13"]
 THEOREMS = ["SCP.C13." + t for t in "print_read printBased_nat digitOf_lower basedDigits_ne_nil convert_rounds round_half_away arithmetic_keeps_base".split()] + \
     ["SCP.C07.radixValue_radixDigits"]
-RULE = ("n in {0, 1, 2^k-1, 2^k, 2^k+1 : k <= 70} + random 64-bit + decimal literals up to 1e25 + fractional N around .5; all 4 x 4 "
+RULE = ("n in {0, 1, 2^k-1, 2^k, 2^k+1 : k <= 70 and k in 96 .. 256 (beyond 2^128, where 128-bit integer arithmetic saturates)} + random 64-bit + decimal literals up to 1e50 + fractional N around .5; all 4 x 4 "
         "source/target bases, with and without 'to', upper/lower-case digits and prefixes; round trip: the printed literal is "
         "fed back and must denote the same integer (exact for n < 2^53, the nearest double above); arithmetic keeps the left "
         "operand's base; non-trivial = n >= 2^31 or fractional N or arithmetic; distinct = distinct lines")
@@ -29,11 +29,11 @@ def lit(n, base, rng):
 def run(ctx, model_ok):
     rng = ctx.rng
     ns = {0, 1, 2, 7, 8, 15, 16, 255, 256, 1000, 65535, 10**6}
-    for k in range(1, 71):
+    for k in list(range(1, 71)) + [96, 100, 126, 127, 128, 129, 130, 160, 200, 256]:
         ns |= {2**k - 1, 2**k, 2**k + 1}
     for _ in range(ctx.n(200, 5000)):
         ns.add(rng.getrandbits(rng.randint(1, 64)))
-    for e in range(1, 26):
+    for e in list(range(1, 26)) + [30, 38, 39, 40, 50]:
         ns.add(10**e)
     # hexadecimal digit strings that CONTAIN a digit followed by a currency code made of hex letters (2bbd, 7cdf, 1aed, 3bad ...):
     # the money reader runs before the number reader
@@ -54,6 +54,15 @@ def run(ctx, model_ok):
             word = tgt if tgt != "hex" else rng.choice(["hex", "hexadecimal"])
             text = f"{lit(n, src, rng)} {conn}{word}"
             cases.append({"text": text, "n": float(n), "tgt": tgt, "kind": "convert"})
+    # the prefix letter itself can start a currency code: '0XCD' / '0xaf12' are 205 and 44818, not zero XCD / XAF
+    xcodes = sorted(c.upper() for c in cfgj["currencies"] if c.upper().startswith("X") and all(ch in "ABCDEF" for ch in c.upper()[1:]))
+    for code in xcodes:
+        for pre in ("0x", "0X"):
+            for tail in ["", "0", "12", "".join(rng.choice("0123456789abcdefABCDEF") for _ in range(rng.randint(1, 5)))]:
+                for rest in (code[1:], code[1:].lower()):
+                    digs = rest + tail
+                    tgt = rng.choice(list(BASES))
+                    cases.append({"text": f"{pre}{digs} to {tgt}", "n": float(int(digs, 16)), "tgt": tgt, "kind": "convert"})
     for _ in range(ctx.n(150, 3000)):
         v = rng.randint(0, 10**6) + rng.choice([0.5, 0.49999, 0.50001, 0.25, 0.75])
         tgt = rng.choice(["hex", "octal", "binary"])
